@@ -5,27 +5,54 @@ import (
 	"sort"
 	"strconv"
 	"strings"
+	"sync/atomic"
 
 	"verifharness/globref"
 	"verifharness/respc"
 )
 
+// dontCare counts names whose verdict the documented syntax leaves open.
+var dontCare int64
+
 const worldArea = "BOUNDS -90 -180 90 180"
 
-// matchAny is the oracle: globref over one or two patterns.
-func matchAny(pats []string, s string) bool {
+// matchAny is the oracle: globref over one or two patterns. must/may differ
+// only where the documented syntax leaves the verdict open ('*' ending inside a
+// multi-byte character); such names are don't-care.
+func matchAny(pats []string, s string) (must, may bool) {
 	for _, p := range pats {
-		if ok, err := globref.Match(p, s); err == nil && ok {
-			return true
+		mu, ma, err := globref.Match3(p, s)
+		if err != nil {
+			continue
 		}
+		must = must || mu
+		may = may || ma
 	}
-	return false
+	return
 }
 
-func filterNames(all []string, pats []string) []string {
+// filterNames keeps the names that must be selected, and those that may be
+// selected if the server did select them (got; nil = none).
+func filterNames(all []string, pats []string, got []string) []string {
+	return filterBy(all, pats, got, func(s string) string { return s })
+}
+
+func filterBy(all []string, pats []string, got []string, nameOf func(string) string) []string {
+	var inGot map[string]bool
 	out := []string{}
 	for _, s := range all {
-		if matchAny(pats, s) {
+		must, may := matchAny(pats, nameOf(s))
+		if !must && may {
+			atomic.AddInt64(&dontCare, 1)
+			if inGot == nil {
+				inGot = map[string]bool{}
+				for _, g := range got {
+					inGot[g] = true
+				}
+			}
+			must = inGot[s]
+		}
+		if must {
 			out = append(out, s)
 		}
 	}
@@ -73,7 +100,7 @@ func classify(own string, pats []string, exp, got []string, nameOf func(string) 
 	for _, s := range exp {
 		if !inGot[s] {
 			missing++
-			if !matchAny(ff, nameOf(s)) {
+			if must, _ := matchAny(ff, nameOf(s)); !must {
 				return own
 			}
 		}
@@ -276,64 +303,57 @@ func (w *worker) globGroup(idx int) {
 		valIDsAsc[i] = pr[0]
 		valByID[pr[0]] = pr[1]
 	}
-	filterVals := func(pats []string) []string {
-		out := []string{}
-		for _, pr := range valPairs {
-			if matchAny(pats, pr[1]) {
-				out = append(out, pr[0])
-			}
-		}
-		return out
-	}
+	valName := func(id string) string { return valByID[id] }
+	ident := func(s string) string { return s }
 
 	// ---- non-destructive queries, all patterns, one pipeline
 	type check struct {
 		cmd    []string
 		kind   string // command class for keys / counters
 		pats   []string
-		exp    []string
+		uni    []string              // the unfiltered listing this command filters
+		nameOf func(string) string   // what the pattern is applied to (id itself, or its value)
+		exp    []string              // filled at judgement time (don't-care names follow the reply)
 		parse  func(respc.Reply) ([]string, bool)
-		uni    int
-		count  bool // reply is an integer to compare with len(exp of the IDS twin)
+		count  bool // reply is an integer to compare with the IDS twin
 		twin   int  // index of the IDS twin for COUNT / of the ASC twin for DESC
 		desc   bool
 		vals   bool
-		noDist bool
 	}
 	var checks []check
 	add := func(c check) int {
+		if c.nameOf == nil {
+			c.nameOf = ident
+		}
 		checks = append(checks, c)
 		return len(checks) - 1
 	}
+	world := strings.Fields(worldArea)
 	for i, p := range gg.pats {
 		one := []string{p}
 		two := []string{p, gg.pats[(i+1)%len(gg.pats)]}
-		expIDs := filterNames(allIDs, one)
-		expVals := filterVals(one)
 		// SCAN
-		a := add(check{cmd: []string{"SCAN", "ki", "LIMIT", big, "MATCH", p, "IDS"}, kind: "scan", pats: one, exp: expIDs, parse: idList, uni: len(allIDs), twin: -1})
-		add(check{cmd: []string{"SCAN", "ki", "LIMIT", big, "MATCH", p, "DESC", "IDS"}, kind: "scan-desc", pats: one, exp: reversed(expIDs), parse: idList, uni: len(allIDs), twin: a, desc: true})
+		a := add(check{cmd: []string{"SCAN", "ki", "LIMIT", big, "MATCH", p, "IDS"}, kind: "scan", pats: one, uni: allIDs, parse: idList, twin: -1})
+		add(check{cmd: []string{"SCAN", "ki", "LIMIT", big, "MATCH", p, "DESC", "IDS"}, kind: "scan-desc", pats: one, uni: allIDs, parse: idList, twin: a, desc: true})
 		add(check{cmd: []string{"SCAN", "ki", "LIMIT", big, "MATCH", p, "COUNT"}, kind: "scan-count", pats: one, count: true, twin: a})
 		// SEARCH (values)
-		b := add(check{cmd: []string{"SEARCH", "kv", "LIMIT", big, "MATCH", p, "ASC", "IDS"}, kind: "search", pats: one, exp: expVals, parse: idList, uni: len(valPairs), twin: -1, vals: true})
-		add(check{cmd: []string{"SEARCH", "kv", "LIMIT", big, "MATCH", p, "DESC", "IDS"}, kind: "search-desc", pats: one, exp: reversed(expVals), parse: idList, uni: len(valPairs), twin: b, desc: true, vals: true})
+		b := add(check{cmd: []string{"SEARCH", "kv", "LIMIT", big, "MATCH", p, "ASC", "IDS"}, kind: "search", pats: one, uni: valIDsAsc, nameOf: valName, parse: idList, twin: -1, vals: true})
+		add(check{cmd: []string{"SEARCH", "kv", "LIMIT", big, "MATCH", p, "DESC", "IDS"}, kind: "search-desc", pats: one, uni: valIDsAsc, nameOf: valName, parse: idList, twin: b, desc: true, vals: true})
 		add(check{cmd: []string{"SEARCH", "kv", "LIMIT", big, "MATCH", p, "COUNT"}, kind: "search-count", pats: one, count: true, twin: b, vals: true})
 		// names
-		add(check{cmd: []string{"KEYS", p}, kind: "keys", pats: one, exp: filterNames(allKeys, one), parse: nameList, uni: len(allKeys), twin: -1})
-		add(check{cmd: []string{"HOOKS", p}, kind: "hooks", pats: one, exp: filterNames(allHooks, one), parse: nameList, uni: len(allHooks), twin: -1})
-		add(check{cmd: []string{"CHANS", p}, kind: "chans", pats: one, exp: filterNames(allChans, one), parse: nameList, uni: len(allChans), twin: -1})
+		add(check{cmd: []string{"KEYS", p}, kind: "keys", pats: one, uni: allKeys, parse: nameList, twin: -1})
+		add(check{cmd: []string{"HOOKS", p}, kind: "hooks", pats: one, uni: allHooks, parse: nameList, twin: -1})
+		add(check{cmd: []string{"CHANS", p}, kind: "chans", pats: one, uni: allChans, parse: nameList, twin: -1})
 		// spatial commands: MATCH on ids without a range shortcut
-		add(check{cmd: append([]string{"WITHIN", "ki", "LIMIT", big, "MATCH", p, "IDS"}, strings.Fields(worldArea)...), kind: "within", pats: one, exp: filterNames(geoW, one), parse: idList, uni: len(geoW), twin: -1})
-		add(check{cmd: append([]string{"INTERSECTS", "ki", "LIMIT", big, "MATCH", p, "IDS"}, strings.Fields(worldArea)...), kind: "intersects", pats: one, exp: filterNames(geoI, one), parse: idList, uni: len(geoI), twin: -1})
-		add(check{cmd: []string{"NEARBY", "ki", "LIMIT", big, "MATCH", p, "IDS", "POINT", "0.5", "0.5"}, kind: "nearby", pats: one, exp: filterNames(geoN, one), parse: idList, uni: len(geoN), twin: -1})
+		add(check{cmd: append([]string{"WITHIN", "ki", "LIMIT", big, "MATCH", p, "IDS"}, world...), kind: "within", pats: one, uni: geoW, parse: idList, twin: -1})
+		add(check{cmd: append([]string{"INTERSECTS", "ki", "LIMIT", big, "MATCH", p, "IDS"}, world...), kind: "intersects", pats: one, uni: geoI, parse: idList, twin: -1})
+		add(check{cmd: []string{"NEARBY", "ki", "LIMIT", big, "MATCH", p, "IDS", "POINT", "0.5", "0.5"}, kind: "nearby", pats: one, uni: geoN, parse: idList, twin: -1})
 		// two MATCH clauses: union
 		if len(gg.pats) > 1 {
-			e2 := filterNames(allIDs, two)
-			c := add(check{cmd: []string{"SCAN", "ki", "LIMIT", big, "MATCH", two[0], "MATCH", two[1], "IDS"}, kind: "scan-multi", pats: two, exp: e2, parse: idList, uni: len(allIDs), twin: -1})
-			add(check{cmd: []string{"SCAN", "ki", "LIMIT", big, "MATCH", two[0], "MATCH", two[1], "DESC", "IDS"}, kind: "scan-multi-desc", pats: two, exp: reversed(e2), parse: idList, uni: len(allIDs), twin: c, desc: true})
-			v2 := filterVals(two)
-			d := add(check{cmd: []string{"SEARCH", "kv", "LIMIT", big, "MATCH", two[0], "MATCH", two[1], "ASC", "IDS"}, kind: "search-multi", pats: two, exp: v2, parse: idList, uni: len(valPairs), twin: -1, vals: true})
-			add(check{cmd: []string{"SEARCH", "kv", "LIMIT", big, "MATCH", two[0], "MATCH", two[1], "DESC", "IDS"}, kind: "search-multi-desc", pats: two, exp: reversed(v2), parse: idList, uni: len(valPairs), twin: d, desc: true, vals: true})
+			c := add(check{cmd: []string{"SCAN", "ki", "LIMIT", big, "MATCH", two[0], "MATCH", two[1], "IDS"}, kind: "scan-multi", pats: two, uni: allIDs, parse: idList, twin: -1})
+			add(check{cmd: []string{"SCAN", "ki", "LIMIT", big, "MATCH", two[0], "MATCH", two[1], "DESC", "IDS"}, kind: "scan-multi-desc", pats: two, uni: allIDs, parse: idList, twin: c, desc: true})
+			d := add(check{cmd: []string{"SEARCH", "kv", "LIMIT", big, "MATCH", two[0], "MATCH", two[1], "ASC", "IDS"}, kind: "search-multi", pats: two, uni: valIDsAsc, nameOf: valName, parse: idList, twin: -1, vals: true})
+			add(check{cmd: []string{"SEARCH", "kv", "LIMIT", big, "MATCH", two[0], "MATCH", two[1], "DESC", "IDS"}, kind: "search-multi-desc", pats: two, uni: valIDsAsc, nameOf: valName, parse: idList, twin: d, desc: true, vals: true})
 			add(check{cmd: []string{"SEARCH", "kv", "LIMIT", big, "MATCH", two[0], "MATCH", two[1], "COUNT"}, kind: "search-multi-count", pats: two, count: true, twin: d, vals: true})
 		}
 	}
@@ -388,11 +408,15 @@ func (w *worker) globGroup(idx int) {
 			continue
 		}
 		gots[i] = got
-		if len(ck.exp) > 0 && len(ck.exp) < ck.uni {
+		ck.exp = filterBy(ck.uni, ck.pats, got, ck.nameOf)
+		if ck.desc {
+			ck.exp = reversed(ck.exp)
+		}
+		if len(ck.exp) > 0 && len(ck.exp) < len(ck.uni) {
 			ctx.Distinct(shape + "|" + ck.kind)
 			ctx.Count("glob_nontrivial", 1)
 			if idx == 3 && i%17 == 0 && i < 17*4 {
-				ctx.Sample(map[string]any{"query": ck.cmd, "selected": len(ck.exp), "of": ck.uni, "expected": ck.exp})
+				ctx.Sample(map[string]any{"query": ck.cmd, "selected": len(ck.exp), "of": len(ck.uni), "expected": ck.exp})
 			}
 		}
 		if !eqStrings(got, ck.exp) {
@@ -400,11 +424,7 @@ func (w *worker) globGroup(idx int) {
 			if ck.desc { // classify in ascending order
 				exp, g2 = reversed(ck.exp), reversed(got)
 			}
-			var nameOf func(string) string
-			if ck.vals {
-				nameOf = func(id string) string { return valByID[id] }
-			}
-			key := classify("match:"+ck.kind, ck.pats, exp, g2, nameOf)
+			key := classify("match:"+ck.kind, ck.pats, exp, g2, ck.nameOf)
 			what := "ids"
 			if ck.vals {
 				what = "ids (selected by VALUE)"
@@ -429,7 +449,6 @@ func (w *worker) globGroup(idx int) {
 		one := []string{p}
 		shape := globref.Shape(p)
 		// PDEL
-		exp := filterNames(curIDs, one)
 		rs, ok := w.batch([][]string{{"PDEL", "ki", p}, {"SCAN", "ki", "LIMIT", big, "IDS"}})
 		w.log = append(w.log, []string{"PDEL", "ki", p})
 		if !ok {
@@ -452,6 +471,7 @@ func (w *worker) globGroup(idx int) {
 					deleted = append(deleted, s)
 				}
 			}
+			exp := filterNames(curIDs, one, deleted)
 			if len(exp) > 0 && len(exp) < len(curIDs) {
 				ctx.Distinct(shape + "|pdel")
 				ctx.Count("glob_nontrivial", 1)
@@ -479,7 +499,6 @@ func (w *worker) globGroup(idx int) {
 				cmdName, list, other = "PDELCHAN", "CHANS", "HOOKS"
 				cur, oth = curChans, curHooks
 			}
-			exp := filterNames(cur, one)
 			rs, ok := w.batch([][]string{{cmdName, p}, {list, "*"}, {other, "*"}})
 			w.log = append(w.log, []string{cmdName, p})
 			if !ok {
@@ -503,6 +522,7 @@ func (w *worker) globGroup(idx int) {
 					deleted = append(deleted, s)
 				}
 			}
+			exp := filterNames(cur, one, deleted)
 			if len(exp) > 0 && len(exp) < len(cur) {
 				ctx.Distinct(shape + "|" + strings.ToLower(cmdName))
 				ctx.Count("glob_nontrivial", 1)
